@@ -91,7 +91,8 @@ def _mc(scratch: Path, inst: Instance, refetch: bool, liveness: bool, workers: i
             "trace": r.trace[:20000] if r.violated else ""}
 
 
-def _record(scratch: Path, inst: Instance, seed0: int, n: int, hashseed: int, none_tasks: str = "", tag: str = "") -> tuple[Path, dict]:
+def _record(scratch: Path, inst: Instance, seed0: int, n: int, hashseed: int, none_tasks: str = "", tag: str = "",
+            exh_cap: int = 0) -> tuple[Path, dict]:
     d = scratch / f"tr_{inst.name}_{hashseed}_{none_tasks}{tag}"
     d.mkdir(parents=True, exist_ok=True)
     ip = d / "inst.pickle"
@@ -100,7 +101,7 @@ def _record(scratch: Path, inst: Instance, seed0: int, n: int, hashseed: int, no
     env = dict(os.environ)
     env["PYTHONHASHSEED"] = str(hashseed)
     p = subprocess.run([PY, "-W", "ignore", "-m", "harness.sim.record_worker", str(ip), str(out), str(seed0), str(n),
-                        none_tasks], cwd=ROOT, env=env, stdout=subprocess.PIPE, stderr=subprocess.STDOUT, text=True,
+                        none_tasks, str(exh_cap)], cwd=ROOT, env=env, stdout=subprocess.PIPE, stderr=subprocess.STDOUT, text=True,
                        timeout=900 + 6 * max(n, 0))
     if p.returncode != 0 or not out.exists():
         raise MachineryError(f"recording {inst.name} failed:\n{p.stdout[-3000:]}")
@@ -151,8 +152,7 @@ def run_engine(ctx: Ctx) -> dict:
         inst, hs, none = args[:3]
         exhaustive = len(args) > 3 and args[3]
         seed0 = ctx.seed * 100000 + hs * 1000
-        out, meta = _record(scratch, inst, seed0, (-400 if ctx.quick else -5000) if exhaustive else n_per, hs, ("" if not exhaustive else "") or none,
-                            tag="all" if exhaustive else "")
+        out, meta = _record(scratch, inst, seed0, n_per, hs, none, exh_cap=(400 if ctx.quick else 5000) if exhaustive else 0)
         traces = json.loads(out.read_text())
         verdicts = _validate(scratch, inst, out, meta["comp_of"], False, 1200)
         if len(verdicts) != len(traces):
@@ -164,7 +164,7 @@ def run_engine(ctx: Ctx) -> dict:
                             "trace": traces[tid - 1] if len(bad) < 3 else None})
         sample = traces[0][:8] if traces else []
         return {"instance": inst.name, "hashseed": hs, "none_tasks": none, "n": len(traces),
-                "exhaustive_orders": bool(exhaustive), "orders_complete": meta.get("complete"),
+                "exhaustive_orders": bool(exhaustive), "orders_complete": meta.get("complete"), "n_orders": meta.get("n_orders", 0),
                 "events": sum(len(t) for t in traces),
                 "ends": _count(t[-1]["ev"] for t in traces if t), "bad": bad, "sample": sample}
 
@@ -175,9 +175,8 @@ def run_engine(ctx: Ctx) -> dict:
         res["mc"] = list(tp.map(job_mc, mc_insts))
     ctx.log(f"cascade engine: model checking of {len(insts)} instances done in {time.time()-t0:.0f}s")
     t1 = time.time()
-    jobs = [(i, hs, "") for i in insts for hs in hashseeds]
-    # every delivery order (executors run to quiescence between deliveries), two hash seeds
-    jobs += [(i, hs, "", True) for i in insts for hs in (0, 1)]
+    # per (instance, hash seed): seeded random schedules + (for hash seeds 0 and 1) every delivery order
+    jobs = [(i, hs, "", hs in (0, 1)) for i in insts for hs in hashseeds]
     # probes for values that are legitimately None (C01/C03 clause "every requested dataset is delivered")
     by_name = {i.name: i for i in insts}
     for nm, none in [("single_1x1_sink", "a"), ("chain2_2x1_all", "a")]:
@@ -226,7 +225,7 @@ def report(ctx: Ctx, pid: str) -> None:
         "traces_validated_against_impl": sum(t["n"] for t in res["traces"]),
         "trace_events": sum(t["events"] for t in res["traces"]),
         "trace_ends": _merge(t["ends"] for t in res["traces"]),
-        "exhaustive_delivery_orders": sum(t["n"] for t in res["traces"] if t.get("exhaustive_orders")),
+        "exhaustive_delivery_orders": sum(t.get("n_orders", 0) for t in res["traces"]),
         "instances_with_all_orders_enumerated": sum(1 for t in res["traces"] if t.get("exhaustive_orders") and t.get("orders_complete")),
         "engine_wall_s": res["wall"],
         "rule": "TLC explores every interleaving of controller and executor actions of spec/Cascade.tla per instance; "
